@@ -170,6 +170,14 @@ AddObj(s, x) == AddCore(s, {x}, [op |-> "AddObj", s |-> s, x |-> x])
 \* holds references: a file listed by two of the items is referenced where it was staged last) and moved together
 AddMany(s, X) == AddCore(s, X, [op |-> "AddMany", s |-> s, xs |-> X])
 
+\* ANOTHER remote of the same project records a push in ITS index - which lives under the same temporary directory as the
+\* index of IdxStore (the normal .dvc/tmp layout), under its own name: this store's index does not care
+IndexElsewhere(X) ==
+    /\ Idle /\ "status" \in Ops /\ IdxStore \in Stores
+    /\ act' = [op |-> "IndexElsewhere", xs |-> X]
+    /\ last' = [op |-> "elsewhere"]
+    /\ UNCHANGED <<store, ridx, delivered, opened, gced, unfin, dev, nx>> /\ NoXfer
+
 \* user edits an object in place (after making it writable): bytes no longer match
 Tamper(s, o) ==
     /\ Idle /\ "tamper" \in Ops
@@ -445,6 +453,7 @@ BeginAny ==
 Next ==
     \/ \E s \in AddTargets, x \in Oids : AddObj(s, x)
     \/ \E s \in AddTargets, X \in {Y \in SUBSET Oids : Cardinality(Y) = 2} : AddMany(s, X)
+    \/ \E X \in {Oids, {"d1", "f1", "f2"}} : IndexElsewhere(X)
     \/ \E s \in Stores, o \in Files : Tamper(s, o)
     \/ \E s \in Stores, o \in Oids : ExtDelete(s, o)
     \/ \E s \in Stores, o \in Oids, ro \in BOOLEAN : Check(s, o, ro)
